@@ -23,7 +23,7 @@ import (
 
 func init() {
 	registry["C17"] = func(rep *core.Report) {
-		shards := []string{"seq", "2x1", "2x2", "3x1", "2x(2,1)", "blocked-key", "expiry", "expiry-janitor", "expiry-2cycles", "expiry-janitor-2cycles"}
+		shards := []string{"shared-item", "seq", "2x1", "2x2", "3x1", "2x(2,1)", "blocked-key", "expiry", "expiry-janitor", "expiry-2cycles", "expiry-janitor-2cycles"}
 		rep.Set("engine", "vrt+explore: every interleaving of the Memoize callers (scheduling points inside the cache's RWMutex and singleflight's Mutex/WaitGroup), callback latency = 0/1/2 scheduling points, callback outcome = Choose(value|error)")
 		if !runWorkers(rep, "C17worker", shards, nil) {
 			fmt.Fprintln(os.Stderr, "C17: worker failure")
@@ -66,6 +66,12 @@ func c17worker(arg string) {
 	}
 	if arg == "expiry-janitor-2cycles" && !thorough {
 		c.budget = 600000 // five threads over eight clock units: preemption bound 2 needs this many schedules
+	}
+	if arg == "shared-item" {
+		c17sharedItem(c)
+		c.st.States = len(c.states)
+		c.out.stats(*c.st)
+		return
 	}
 	keys := []string{"p", "q"}
 	var progs [][][]string // threads -> calls -> key
@@ -406,4 +412,50 @@ func valueOf(key string, n int) int {
 		return 2000 + n
 	}
 	return 1000 + n
+}
+
+
+// c17sharedItem: the function hands back the SAME item object from every execution (a backing store that
+// returns what it holds), and two Memoizers with different lifetimes memoize it. Each keeps its own
+// entry: what one does with the item (its deadline) is not the other's. Orders of the first two calls and
+// the length of the wait are explorer choices.
+func c17sharedItem(c *c20ctx) {
+	var runs [2]int
+	var recs []string
+	var viol, det string
+	c.explore("Memoize: two Memoizers (lifetime 3 / no expiry), the function returns one shared item", 0, func() {
+		runs, recs, viol, det = [2]int{}, recs[:0], "", ""
+		scratch := cache.New[string, int](cache.NoExpiration, 0)
+		scratch.Update("v", 7, cache.NoExpiration)
+		shared, _ := scratch.Get("v")
+		ms := [2]*gogu.Memoizer[string, int]{gogu.NewMemoizer[string, int](3*unit, 0), gogu.NewMemoizer[string, int](cache.NoExpiration, 0)}
+		call := func(i int) {
+			before := runs[i]
+			it, err := ms[i].Memoize("p", func() (*cache.Item[int], error) { runs[i]++; return shared, nil })
+			recs = append(recs, fmt.Sprintf("m%d@%d ran=%d", i, now(), runs[i]-before))
+			if err != nil || it == nil || it.Val() != 7 {
+				viol, det = "Memoize/shared-item/wrong-result", fmt.Sprintf("Memoizer %d returned (%v, %v), want the value 7", i, it, err)
+			}
+		}
+		first := vrt.Choose(2)
+		call(first)
+		call(1 - first)
+		vrt.Advance(time.Duration(2+2*vrt.Choose(3)) * unit) // 2, 4 or 6 units
+		t := now()
+		call(1) // no expiry: cached for ever
+		if runs[1] != 1 && viol == "" {
+			viol, det = "Memoize/shared-item/recomputes-although-cached", fmt.Sprintf("the Memoizer without expiry ran the function %d times; its entry never expires (history %v)", runs[1], recs)
+		}
+		call(0)
+		if want := 1 + b2i(t > 3); runs[0] != want && viol == "" {
+			viol, det = "Memoize/shared-item/lifetime-3-not-respected", fmt.Sprintf("the Memoizer with lifetime 3 ran the function %d times by time %d, want %d (history %v)", runs[0], t, want, recs)
+		}
+	}, func(x *vrt.Exec) (string, string) { return viol, det }, func() any { return fmt.Sprint(recs) })
+}
+
+func b2i(b bool) int {
+	if b {
+		return 1
+	}
+	return 0
 }
